@@ -4,6 +4,7 @@ import Amgcl.Model.Inverse
 import Amgcl.Model.StaticMatrix
 import Amgcl.Model.DenseCheck
 import Amgcl.Model.Rsqrt
+import Amgcl.Model.QR
 /-!
 Handlers for the C16 family (harness/h_direct.cpp):
 
@@ -14,6 +15,8 @@ Handlers for the C16 family (harness/h_direct.cpp):
   `direct_sm_inner N M x y` · `direct_sm_inverse N a`      static_matrix arithmetic
 * `direct_cmk_check rev A perm`             V-grade: `isPermB` on the output of `cuthill_mckee<rev>::get`
 * `direct_qr_check arith order m n A Qk R`      V-grade: exact / tolerance QR predicates on the output of `QR::factorize`
+* `direct_qr_model order m n A` · `direct_qr_solve_model order m n A b`   faithful QR model (real scalars, `rsqrt`): exact
+  correspondence of the factorised buffer, `Q(i,j)` and the solution of `QR::solve`
 * `direct_qr_solve_check arith order m n A b x`  V-grade: normal equations (tall) / residual (wide) of `QR::solve`
 -/
 namespace Amgcl.Driver.Direct
@@ -165,6 +168,35 @@ def handle (op : String) (args : List String) : Option String :=
             joinSp [showBool (Dense.qrExact A Q R), showBool (decide (Dense.qrDefect A Q R ≤ tol)),
                     showBool (Dense.upperTri R)]
       | _, _, _, _ => some badInput
+    | _ => some badInput
+  | "direct_qr_model" =>
+    match args with
+    | sO :: sm :: sn :: rest =>
+      match sO.toNat?, sm.toNat?, sn.toNat? with
+      | some o, some m, some n =>
+        if !(o ≤ 1 && 1 ≤ m && 1 ≤ n) then some badInput else
+        withArgs (pDense m n) rest fun A =>
+          let rs := if o == 0 then n else 1
+          let cs := if o == 0 then 1 else m
+          let buf : Array Rat := (List.range m).foldl (fun b i => (List.range n).foldl (fun b j =>
+            b.setIfInBounds (i * rs + j * cs) (A.get i j)) b) (Array.replicate (m * n) 0)
+          let (F, _, q) := QRModel.factorize rsqrt m n rs cs buf
+          joinSp [showVec F, showVec (Array.ofFn (n := m * n) (fun idx => QRModel.getQ q rs cs (idx.val / n) (idx.val % n)))]
+      | _, _, _ => some badInput
+    | _ => some badInput
+  | "direct_qr_solve_model" =>
+    match args with
+    | sO :: sm :: sn :: rest =>
+      match sO.toNat?, sm.toNat?, sn.toNat? with
+      | some o, some m, some n =>
+        if !(o ≤ 1 && 1 ≤ m && 1 ≤ n) then some badInput else
+        withArgs (do let A ← pDense m n; let b ← pMany m pRat; pure (A, b.toArray)) rest fun (A, b) =>
+          let rs := if o == 0 then n else 1
+          let cs := if o == 0 then 1 else m
+          let buf : Array Rat := (List.range m).foldl (fun bf i => (List.range n).foldl (fun bf j =>
+            bf.setIfInBounds (i * rs + j * cs) (A.get i j)) bf) (Array.replicate (m * n) 0)
+          showVec (QRModel.solve rsqrt m n rs cs buf b)
+      | _, _, _ => some badInput
     | _ => some badInput
   | "direct_qr_solve_check" =>
     match args with
